@@ -144,13 +144,13 @@ func init() {
 		Assumptions: stdAssumptions})
 	register(&Property{ID: "C06", Title: "SML parser is total and all-or-nothing",
 		Rules:       []Rule{rContS, rAllocS, rPreS, rRecS, rFanS, rEmit, rErrSupp, only(rImmut, "I5:go"), rTermCall, only(rLexClass, "comment-return", "token-positions"), only(rFormat, "sml.")},
-		Explanation: "Every refusal (explicit panic or failing type assertion) reachable from sml.Parse lies under a deferred recover on every call path (R7); no size taken from the input text sizes an allocation unchecked (R6, R6c); each lexer state sends at most as many tokens per invocation as the channel holds, runs only when the buffer is empty, and closes the channel after error/EOF (R19); messages are returned only when no error was reported and diagnostics have the documented form (R25); no goroutine is started (I5); recursion depth (R8) is an open, recorded finding. Only errorf and lexEOF, which send a positioned token first, end the token stream, and the comment state returns to the interrupted state or lexEOF (R19b, R10), so a diagnostic always carries a token position, and that position is the place of the token in the text: the lexer evaluated on texts with line breaks inside size declarations, CRLF, tabs, comments and multi-byte characters gives every token the line and column counted from the text (R10 token-positions); no format string is computed from data (R28).",
+		Explanation: "Every refusal (explicit panic or failing type assertion) reachable from sml.Parse lies under a deferred recover on every call path (R7); no size taken from the input text sizes an allocation unchecked (R6, R6c); each lexer state sends at most as many tokens per invocation as the channel holds, runs only when the buffer is empty, and closes the channel after error/EOF (R19); messages are returned only when no error was reported and diagnostics have the documented form (R25); no goroutine is started (I5); recursion depth (R8) is an open, recorded finding; the recursive walk of the built item tree that every list construction runs (Variables, through checkRep) enters each child at most once on any path through its body, so nesting cannot multiply the work by 2 per level (R8b). Only errorf and lexEOF, which send a positioned token first, end the token stream, and the comment state returns to the interrupted state or lexEOF (R19b, R10), so a diagnostic always carries a token position, and that position is the place of the token in the text: the lexer evaluated on texts with line breaks inside size declarations, CRLF, tabs, comments and multi-byte characters gives every token the line and column counted from the text (R10 token-positions); no format string is computed from data (R28).",
 		NotDecided:  "lexer termination (progress per state invocation), run-time index/slice panics in the lexer, time complexity, and positions beyond the evaluated texts are not decided.",
 		Assumptions: stdAssumptions})
 	register(&Property{ID: "C07", Title: "HSMS decoder is total, memory linear in the input",
 		Rules:       []Rule{rContH, rAllocH, rPreH, rRecH, rFanH, only(rImmut, "I5:go", "hsms.Parse", "(*hsms.parser)")},
-		Explanation: "hsms.Parse defers, in its entry block, a closure that itself calls recover and sets ok=false, and every may-panic site below it is under that recover (R7); every buffer sized from a declared length is preceded, on every path, by a comparison of that length with the bytes present (R6, interprocedural through the numeric handlers); no input-sized buffer is allocated before a recursive call (R6c) and no string is built by concatenation in a loop (R6b) — the two ways allocation becomes quadratic; the input slice is never written (R12-I3); recursion depth (R8) is an open, recorded finding.",
-		NotDecided:  "the constant of the linear bound and allocation inside the ast factories beyond 'sized by len(values)' are not decided.",
+		Explanation: "hsms.Parse defers, in its entry block, a closure that itself calls recover and sets ok=false, and every may-panic site below it is under that recover (R7); every buffer sized from a declared length is preceded, on every path, by a comparison of that length with the bytes present (R6, interprocedural through the numeric handlers); no input-sized buffer is allocated before a recursive call (R6c) and no string is built by concatenation in a loop (R6b) — the two ways allocation becomes quadratic; the input slice is never written (R12-I3); recursion depth (R8) is an open, recorded finding; the recursive walk of the built item tree that every list construction runs enters each child at most once per path through its body (R8b: no 2^depth blow-up for nested lists).",
+		NotDecided:  "the constant of the linear bound, allocation inside the ast factories beyond 'sized by len(values)', and the allocation total of the per-level re-walk of nested lists (quadratic in depth once a visit allocates) are not decided.",
 		Assumptions: stdAssumptions})
 	register(&Property{ID: "C08", Title: "Comments, whitespace and letter case never change what is parsed",
 		Rules:       []Rule{rLexClass, only(rSMLTab, "keyword-class"), only(rHdrSpell, "prefix-case")},
